@@ -35,8 +35,18 @@ _ACTUAL = ['withBoolParameters', 'withIntParameters', 'withUnsignedIntParameters
 # must have been called through its table slot, most of them often
 _SLOTS = ['slot:support.' + n for n in _SUPPORT] + ['slot:expected.' + n for n in _EXPECTED] + ['slot:actual.' + n for n in _ACTUAL]
 _FLOOR_Q = dict((s, 20) for s in _SLOTS)
+_ADAPT = ['c_equal_fn_call:%s:%s:%s' % (m, rel, res) for m, rel, res in [
+    ('structural', 'same-object', 'equal'), ('structural', 'distinct-objects', 'equal'), ('structural', 'distinct-objects', 'unequal'),
+    ('nonreflexive', 'same-object', 'unequal'), ('nonreflexive', 'same-object', 'equal'), ('identity', 'distinct-objects', 'unequal'),
+    ('ordered', 'distinct-objects', 'equal'), ('ordered', 'distinct-objects', 'unequal'), ('never', 'same-object', 'unequal'),
+    ('always', 'distinct-objects', 'equal')]] + ['c_copy_fn_call:memcpy:dst-differs', 'c_copy_fn_call:xor:dst-differs', 'c_copy_fn_call:xor:dst-is-src',
+    'c_copy_fn_call:memcpy:dst-is-src']
 _FLOOR_Q.update(execution_pairs=30000, pairs_agree_passing=8000, pairs_agree_failing=8000, output_buffers_compared=4000, data_readbacks_compared=5000)
+_FLOOR_Q.update((k, 20) for k in _ADAPT)
+_FLOOR_Q.update(c_equal_fn_same_object_judged_unequal=200, c_equal_fn_distinct_objects_judged_equal=200)
 _FLOOR_T = dict((s, 200) for s in _SLOTS)
+_FLOOR_T.update((k, 20) for k in _ADAPT)
+_FLOOR_T.update(c_equal_fn_same_object_judged_unequal=200, c_equal_fn_distinct_objects_judged_equal=200)
 _FLOOR_T.update(execution_pairs=500000, pairs_agree_passing=100000, pairs_agree_failing=100000, output_buffers_compared=20000, data_readbacks_compared=20000)
 
 P = dict(
@@ -49,9 +59,12 @@ P = dict(
               'compared event by event; ASan/UBSan build',
     rule='case = one scenario (list of statements: expectations with typed parameters / output parameters / return value, actual calls with '
          'return-value getters at call level and support level, strict order, ignore/disable/enable, data store, check, clear, comparators and '
-         'copiers, crashOnFailure) executed through both interfaces. Sections: forwarder_table (enumerated: every parameter / return type x '
+         'copiers drawn from the function families of custom_type_adaptor_table, the actual call passing the expectation\'s own object or its twin, typed outputs received into the returned object, crashOnFailure) executed through both interfaces. Sections: forwarder_table (enumerated: every parameter / return type x '
          'boundary lattice x getter x level, output-parameter kinds, tolerance, support-table operations), data_store_table (enumerated), '
-         'support_getters_after_ignored_call (enumerated; defect D19, repaired in /repo, its reversal must fire here), random_scenarios (seeded, about half of them failing). '
+         'support_getters_after_ignored_call (enumerated; defect D19, repaired in /repo, its reversal must fire here), custom_type_adaptor_table (enumerated: every member of a '
+         'family of user equality functions - structural, non-reflexive, address identity, ordered/asymmetric, never, always with a zero low byte - x every ordered pair of '
+         'pool objects including the same object on both sides x one / two candidate expectations x scope; every member of a family of copy functions - memcpy, converting - x '
+         'source object, the receiving buffer itself included), random_scenarios (seeded, about half of them failing), random_custom_type_scenarios (the same generator with comparators and copiers always in play and object parameters / typed outputs dominating). '
          'Non-trivial = scenario with an integer value outside int range, or an output parameter, or a failing verdict; distinct by the full '
          'scenario text. Check counters and milliseconds are masked (C returnValue() converts through the checked getters).',
     floor=dict(quick=15000, thorough=250000),
